@@ -24,3 +24,37 @@ M('C10', 'welford-alt-update', (W, "self.sum_squares += difference_1 * differenc
                                 "self.sum_squares += difference_1 * difference_1 * (self.N - 1) / self.N"), kind='equivalent')
 
 
+
+# ---- C11 ---------------------------------------------------------------------------------------
+SW = 'ixai/utils/tracker/sliding_window.py'
+M('C11', 'revert-fix-npnan', (SW, "np.nan for _ in range", "np.NaN for _ in range"))
+M('C11', 'revert-fix-wrap', (SW, "            self.sliding_window[self.window_k] = value_i\n            self.window_k += 1\n        return self",
+                             "            self.sliding_window[self.window_k] = value_i\n        return self"))
+M('C11', 'plain-mean-over-nan', (SW, "float(np.nanmean(self.sliding_window, axis=0))", "float(np.mean(self.sliding_window, axis=0))"))
+M('C11', 'sample-variance', (SW, "float(np.nanvar(self.sliding_window, axis=0))", "float(np.nanvar(self.sliding_window, axis=0, ddof=0 if self.window_k < 2 else 1))"))
+M('C11', 'modular-index-refactor', (SW, """        if self.window_k < self.k:
+            self.sliding_window[self.window_k] = value_i
+            self.window_k += 1
+        else:
+            self.window_k = 0
+            self.sliding_window[self.window_k] = value_i
+            self.window_k += 1
+""", """        self.sliding_window[self.window_k % self.k] = value_i
+        self.window_k = self.window_k % self.k + 1
+"""), kind='equivalent')
+
+# ---- C07 ---------------------------------------------------------------------------------------
+GEO = 'ixai/storage/geometric_reservoir_storage.py'
+UNI = 'ixai/storage/uniform_reservoir_storage.py'
+INT = 'ixai/storage/interval_storage.py'
+BAT = 'ixai/storage/batch_storage.py'
+M('C07', 'geo-target-other-slot', (GEO, "self._storage_y[rand_idx] = y", "self._storage_y[(rand_idx + 1) % self.size] = y"))
+M('C07', 'uni-target-other-slot', (UNI, "self._storage_y[rand_idx] = y", "self._storage_y[random.randrange(self.size)] = y"))
+M('C07', 'interval-popleft-x-only', (INT, "                self._storage_y.popleft()\n", ""))
+M('C07', 'uniform-capacity-plus-one', (UNI, "if self.stored_samples <= self.size:", "if self.stored_samples <= self.size + 1:"))
+M('C07', 'geo-duplicate-arrival', (GEO, "self._storage_x[rand_idx] = x", "self._storage_x[rand_idx] = x\n                self._storage_x[0] = x"))
+M('C07', 'batch-keeps-targets', (BAT, "if self.store_targets:", "if True:"))
+M('C07', 'interval-window-off-by-one', (INT, "if len(self._storage_x) < self.size:", "if len(self._storage_x) <= self.size:"))
+M('C07', 'geo-stores-copy', (GEO, "self._storage_x[rand_idx] = x", "self._storage_x[rand_idx] = dict(x)"), kind='equivalent')
+M('C07', 'geo-fill-phase-stale-target', (GEO, "            self._storage_x.append(x)\n            if self.store_targets:\n                self._storage_y.append(y)",
+                                       "            self._storage_x.append(x)\n            if self.store_targets:\n                self._storage_y.insert(0, y)"))
